@@ -2,6 +2,7 @@
 //! TLA+ trace specifications (judged by TLC) consume.  See /verif/DESIGN.md.
 mod afio;
 mod obs;
+mod dynamic;
 mod stat;
 mod store;
 mod util;
@@ -16,6 +17,7 @@ fn main() {
     match argv[1].as_str() {
         "static" => stat::cmd_static(&a),
         "store" => store::cmd_store(&a),
+        "dynamic" => dynamic::cmd_dynamic(&a),
         c => {
             eprintln!("unknown command {}", c);
             std::process::exit(2);
